@@ -50,6 +50,11 @@ pub fn int_spellings(t: IntTy) -> Vec<Bound> {
         v.push(expr_i("paren-neg-const", "(-KA)", -5));
         v.push(expr_i("type-min-arith", &format!("{n}::MIN + 3"), t.min_v().saturating_add(3)));
     }
+    // (appended, so that the rotation of bound kinds over the earlier spellings stays as it was)
+    if t.signed() {
+        v.push(expr_i("not-lit", "!7", -8));
+        v.push(expr_i("not-zero", "!0", -1));
+    }
     v
 }
 
@@ -632,6 +637,21 @@ fn floats(out: &mut Vec<Decl>) {
             };
             let d = std(Decl::new(inner), vals).tag(&format!("float-spelling:{class}"));
             out.push(with_derives(d, &[Tr::Debug, Tr::Clone, Tr::PartialEq, Tr::TryFrom, Tr::Display, Tr::FromStr]));
+        }
+
+        // C2. many-digit literal bounds a hair beside an f32 rounding midpoint, in every bound kind
+        for (li, (text, approx)) in [("16777217.0000000001", 16777218.0), ("1.00000005960464477", 1.0), ("-1.0000001788139343261718751", -1.0000002), ("0.1000000014901161193847656250000001", 0.1)].into_iter().enumerate() {
+            for k in 0..4 {
+                let b = spelled("lit-midpoint", text, text, Num::F(approx), true);
+                let v = match k {
+                    0 => ValSpec::Greater(b),
+                    1 => ValSpec::GreaterEq(b),
+                    2 => ValSpec::Less(b),
+                    _ => ValSpec::LessEq(b),
+                };
+                let d = std(Decl::new(inner), vec![v]).tag(&format!("float-midpoint-literal:{li}:{k}"));
+                out.push(with_derives(d, &[Tr::Debug, Tr::Clone, Tr::PartialEq, Tr::TryFrom, Tr::FromStr, Tr::Deserialize]));
+            }
         }
 
         // D. validator permutations
